@@ -26,6 +26,20 @@ struct Shared {
     solo_op_no: AtomicU64,
     solo_done: AtomicBool,
     spin_flagged: AtomicBool,
+    /// kernel thread id of the solo thread (to read its scheduler state)
+    solo_ktid: AtomicU64,
+    churn_cycles: AtomicU64,
+}
+
+/// scheduler state letter of a thread of this process (R running, S sleeping, D disk sleep, ...)
+fn solo_state(ktid: u64) -> Option<char> {
+    if ktid == 0 {
+        return None;
+    }
+    let s = std::fs::read_to_string(format!("/proc/self/task/{}/stat", ktid)).ok()?;
+    // pid (comm) state ...
+    let close = s.rfind(')')?;
+    s[close + 1..].trim_start().chars().next()
 }
 
 pub fn thread_cpu_ns(pt: libc::pthread_t) -> Option<u64> {
@@ -50,6 +64,9 @@ pub struct SoloCfg {
     pub producers: u32,
     pub shared_consumers: u32,
     pub extra_streams: u32,
+    /// a thread that keeps adding/removing streams and cloning/dropping handles, so that reclamation
+    /// cycles run and the other threads can be frozen while they hold the memory manager's locks
+    pub churner: bool,
     pub freezes: u32,
     pub policy: Policy,
     pub seed: u64,
@@ -58,13 +75,14 @@ pub struct SoloCfg {
 impl SoloCfg {
     pub fn describe(&self) -> String {
         format!(
-            "solo {} cap={} wait={} P={} shared_consumers={} extra_streams={} freezes={} policy={}",
+            "solo {} cap={} wait={} P={} shared_consumers={} extra_streams={} churner={} freezes={} policy={}",
             self.fl.name(),
             self.cap,
             self.wait.name(),
             self.producers,
             self.shared_consumers,
             self.extra_streams,
+            self.churner,
             self.freezes,
             self.policy.name()
         )
@@ -80,6 +98,7 @@ pub fn gen_cfg(rng: &mut Rng, small: bool) -> SoloCfg {
         producers: 1 + rng.below(2) as u32,
         shared_consumers: 1 + rng.below(2) as u32,
         extra_streams: if fl == Flavour::Broadcast { rng.below(2) as u32 } else { 0 },
+        churner: rng.chance(2, 3),
         freezes: if small { 2 } else { 4 + rng.below(6) as u32 },
         policy: if rng.chance(1, 2) { Policy::Yield } else { Policy::None },
         seed: rng.next(),
@@ -105,6 +124,8 @@ pub fn run_once(cfg: &SoloCfg, shard: &mut Shard) -> (Vec<u64>, bool) {
         solo_op_no: AtomicU64::new(0),
         solo_done: AtomicBool::new(false),
         spin_flagged: AtomicBool::new(false),
+        solo_ktid: AtomicU64::new(0),
+        churn_cycles: AtomicU64::new(0),
     });
     let mut joins = Vec::new();
     let mut tid = 1u32;
@@ -180,6 +201,55 @@ pub fn run_once(cfg: &SoloCfg, shard: &mut Shard) -> (Vec<u64>, bool) {
         }));
         tid += 1;
     }
+    if cfg.churner {
+        let ctx = tx0.clone_tx();
+        let mut crx = if cfg.fl == Flavour::Broadcast {
+            rx0.add_stream(false).expect("add_stream")
+        } else {
+            rx0.clone_rx().expect("clone")
+        };
+        let sh = sh.clone();
+        let seed = rng.next();
+        let policy = cfg.policy;
+        let my = tid;
+        let fl = cfg.fl;
+        workers += 1;
+        joins.push(std::thread::spawn(move || {
+            hooks::thread_begin(my, crate::conc::ROLE_AUX, seed, policy, &[]);
+            hist::set_enabled(false);
+            let mut r = Rng::new(seed);
+            while !sh.go.load(SeqCst) {
+                std::thread::yield_now();
+            }
+            let mut id = (my as u64) << 40;
+            while !sh.stop.load(SeqCst) {
+                match r.below(3) {
+                    0 if fl == Flavour::Broadcast => {
+                        if let Some(n) = crx.add_stream(false) {
+                            n.drop_rx();
+                        }
+                    }
+                    1 => {
+                        if let Some(n) = crx.clone_rx() {
+                            n.drop_rx();
+                        }
+                    }
+                    _ => {
+                        let n = ctx.clone_tx();
+                        n.try_send(id);
+                        id += 1;
+                        n.drop_tx(false);
+                    }
+                }
+                crx.recv_kind(RecvKind::TryRecv);
+                sh.churn_cycles.fetch_add(1, SeqCst);
+            }
+            ctx.drop_tx(false);
+            crx.drop_rx();
+            hooks::thread_end();
+        }));
+        tid += 1;
+    }
     // ---- the solo thread
     let solo_tid = tid;
     let results: Arc<std::sync::Mutex<Vec<(String, String, u64, Vec<u32>)>>> = Arc::new(std::sync::Mutex::new(Vec::new()));
@@ -193,6 +263,9 @@ pub fn run_once(cfg: &SoloCfg, shard: &mut Shard) -> (Vec<u64>, bool) {
     let solo = std::thread::spawn(move || {
         hooks::thread_begin(solo_tid, crate::conc::ROLE_AUX, solo_seed, Policy::None, &[]);
         hist::set_enabled(false);
+        if !cfg!(miri) {
+            shs.solo_ktid.store(unsafe { libc::syscall(libc::SYS_gettid) } as u64, SeqCst);
+        }
         let mut r = Rng::new(solo_seed);
         let mut srx = solo_shared_rx;
         let mut urx = solo_uni_rx;
@@ -290,6 +363,8 @@ pub fn run_once(cfg: &SoloCfg, shard: &mut Shard) -> (Vec<u64>, bool) {
     let t0 = Instant::now();
     let mut last_op = u64::MAX;
     let mut cpu_at_op_start = 0u64;
+    let mut cpu_last = 0u64;
+    let mut asleep_samples = 0u32;
     let rx0 = rx0;
     while !sh.solo_done.load(SeqCst) {
         if !cfg!(miri) {
@@ -307,6 +382,27 @@ pub fn run_once(cfg: &SoloCfg, shard: &mut Shard) -> (Vec<u64>, bool) {
                     if op != last_op {
                         last_op = op;
                         cpu_at_op_start = cpu;
+                        asleep_samples = 0;
+                        cpu_last = cpu;
+                    } else if cpu == cpu_last && solo_state(sh.solo_ktid.load(SeqCst)) == Some('S') {
+                        // same operation, no CPU consumed since the last sample, sleeping in the kernel:
+                        // it is blocked on something only another (frozen) thread can release
+                        asleep_samples += 1;
+                        if asleep_samples >= 40 && !sh.spin_flagged.swap(true, SeqCst) {
+                            let sites: Vec<String> = (1..=workers)
+                                .map(|t| hooks::site_name(hooks::FROZEN_AT[t as usize].load(SeqCst)).to_string())
+                                .collect();
+                            violation(
+                                "C18",
+                                "solo-op-blocks",
+                                "solo-op-blocks:asleep-in-kernel".to_string(),
+                                format!(
+                                    "a single try operation, run alone while every other thread was suspended at {:?}, went to sleep in the kernel (blocked on a lock or condition) and stayed there for 40 consecutive samples without consuming any CPU: it waits for another thread",
+                                    sites
+                                ),
+                            );
+                            hooks::release_all();
+                        }
                     } else if cpu - cpu_at_op_start > 2_000_000_000 && !sh.spin_flagged.swap(true, SeqCst) {
                         let sites: Vec<String> = (1..=workers)
                             .map(|t| hooks::site_name(hooks::FROZEN_AT[t as usize].load(SeqCst)).to_string())
@@ -324,6 +420,12 @@ pub fn run_once(cfg: &SoloCfg, shard: &mut Shard) -> (Vec<u64>, bool) {
                         hooks::release_all();
                     }
                 }
+            }
+            if let Some(cpu) = thread_cpu_ns(solo_pt) {
+                if cpu != cpu_last {
+                    asleep_samples = 0;
+                }
+                cpu_last = cpu;
             }
             if t0.elapsed() > Duration::from_secs(60) {
                 incon.lock().unwrap().push("solo scenario exceeded the wall-clock watchdog".into());
@@ -383,6 +485,7 @@ pub fn run_once(cfg: &SoloCfg, shard: &mut Shard) -> (Vec<u64>, bool) {
     }
     shard.stat_max("max_own_steps_of_a_solo_op", max_steps);
     shard.stat("solo_ops", results.lock().unwrap().len() as u64);
+    shard.stat("churn_cycles_in_background", sh.churn_cycles.load(SeqCst));
     let vs = payload::take_violations();
     if !vs.is_empty() {
         let replay = J::obj().set("engine", J::s("solo")).set("cfg", J::s(cfg.describe())).set("run_seed", J::UInt(cfg.seed));
